@@ -69,8 +69,13 @@ def gen_width(rng) -> int:
     return rng.randint(1, 64)
 
 
+_NO_FLOAT = [False]     # set by generate(no_float=True): float-free namespaces for omit_float_serialization_support builds
+
+
 def gen_prim(rng, in_union: bool = False, allow_void: bool = True) -> T:
     r = rng.random()
+    if _NO_FLOAT[0] and r >= 0.80:
+        r = 0.3
     if r < 0.08:
         return T('bool', 1, 1, 'bool')
     if r < 0.14 and allow_void and not in_union:
@@ -129,7 +134,7 @@ def gen_field_type(rng, pool: typing.List[Comp], in_union: bool, budget: int, wa
 def gen_consts(rng) -> typing.List[str]:
     out = []
     for i in range(rng.choice([0, 0, 0, 1, 2])):
-        k = rng.randrange(4)
+        k = rng.randrange(3 if _NO_FLOAT[0] else 4)
         name = 'K%d' % i
         if k == 0:
             w = rng.choice([8, 16, 32, 64, 13])
@@ -178,8 +183,17 @@ def comp_text(c: Comp) -> str:
     return '\n'.join(lines) + '\n'
 
 
-def generate(rng, n_types: int = 30, budget: int = 1600) -> dict:
-    """n_types composites (services count as one) over two root namespaces; at least three levels of nesting."""
+def generate(rng, n_types: int = 30, budget: int = 1600, no_float: bool = False) -> dict:
+    """n_types composites (services count as one) over two root namespaces; at least three levels of nesting.
+    no_float: no floating point field or constant anywhere (for builds with --omit-float-serialization-support)."""
+    _NO_FLOAT[0] = bool(no_float)
+    try:
+        return _generate(rng, n_types, budget)
+    finally:
+        _NO_FLOAT[0] = False
+
+
+def _generate(rng, n_types: int, budget: int) -> dict:
     roota, rootb = 'nsa', 'nsb'
     files: typing.Dict[str, str] = {}
     pools: typing.List[typing.List[Comp]] = [[], [], [], []]
